@@ -38,8 +38,12 @@ type ctxRec struct {
 type cidKey struct{}
 type otherKey struct{}
 
-// PanicVal is what scripted constructor panics panic with.
+// PanicVal is what scripted constructor panics panic with; for every third registration the value is an error
+// (`panic(fmt.Errorf(...))`, as a runtime error is), which must still come back as a constructor *panic*.
 type PanicVal struct{ Rid int }
+type PanicErr struct{ Rid int }
+
+func (e *PanicErr) Error() string { return fmt.Sprintf("scripted panic (an error value) of registration %d", e.Rid) }
 
 type Run struct {
 	mu          sync.Mutex
@@ -96,7 +100,17 @@ func (r *Run) errOf(rid int, kind int) error {
 	case 2:
 		e = ValErr{Rid: rid}
 	default:
-		e = fmt.Errorf("scripted constructor error of registration %d", rid)
+		// the constructor's own error may wrap anything, also error values the container itself uses
+		switch rid % 5 {
+		case 1:
+			e = fmt.Errorf("scripted constructor error of registration %d: %w", rid, godi.ErrScopeDisposed)
+		case 2:
+			e = fmt.Errorf("scripted constructor error of registration %d: %w", rid, context.Canceled)
+		case 3:
+			e = fmt.Errorf("scripted constructor error of registration %d: %w", rid, godi.ErrProviderDisposed)
+		default:
+			e = fmt.Errorf("scripted constructor error of registration %d", rid)
+		}
 	}
 	r.regErr[rid] = e
 	return e
@@ -447,6 +461,9 @@ func (r *Run) ctorBody(reg *Reg, fnType reflect.Type, args []reflect.Value) []re
 	}
 	switch outcome {
 	case OPanic:
+		if reg.ID%3 == 1 {
+			panic(fmt.Errorf("wrapped: %w", &PanicErr{Rid: reg.ID}))
+		}
 		panic(PanicVal{Rid: reg.ID})
 	case OErr:
 		switch f.ErrKind {
@@ -653,14 +670,21 @@ func (r *Run) moduleOption(m Module) godi.ModuleOption {
 
 // ---------------------------------------------------------------- error classes
 
+// asVal finds one of the library's error types in the chain, in the form the library hands them out and documents
+// them: a pointer (`var e *godi.AlreadyRegisteredError; errors.As(err, &e)`). A wrapper that stores the value instead
+// is not found by that idiom, and is not found here. (ModuleError and LifetimeError are handed out as values.)
 func asVal[T error](err error) (T, bool) {
 	var v T
-	if errors.As(err, &v) {
-		return v, true
-	}
 	var p *T
 	if errors.As(err, &p) && p != nil {
 		return *p, true
+	}
+	// the two types the library hands out as values
+	switch any(v).(type) {
+	case godi.ModuleError, godi.LifetimeError:
+		if errors.As(err, &v) {
+			return v, true
+		}
 	}
 	return v, false
 }
@@ -712,6 +736,12 @@ func (r *Run) classify(err error) Result {
 		res.Class, res.CArg = "ECtorPanic", 7006
 		if pv, ok := pe.Panic.(PanicVal); ok {
 			res.CArg = pv.Rid
+		}
+		if perr, ok := pe.Panic.(error); ok {
+			var pe2 *PanicErr
+			if errors.As(perr, &pe2) {
+				res.CArg = pe2.Rid
+			}
 		}
 		return res
 	}
@@ -1010,10 +1040,12 @@ func (r *Run) exec(op *Op) (res Result) {
 		}
 		if err != nil {
 			delete(pr.idToHandle, id)
-			if !(errors.Is(err, godi.ErrProviderDisposed) || errors.Is(err, godi.ErrScopeDisposed)) {
+			// (decided on the classified error: a constructor's own error may wrap the disposed sentinels)
+			res := r.classify(err)
+			if !(res.Class == "EProviderDisposed" || res.Class == "EScopeDisposed") {
 				pr.newScopes++
 			}
-			return r.classify(err)
+			return res
 		}
 		pr.newScopes++
 		if sc.ID() != id {
